@@ -9,3 +9,8 @@ package phantoms
 //@   ensures result1 == nil ==> result0 != nil
 //@   assigns nothing
 //@   trusted
+
+//@ func NewPhantomIPSelector() (*PhantomIPSelector, error)
+//@   ensures result1 == nil ==> result0 != nil
+//@   assigns nothing
+//@   trusted
